@@ -27,11 +27,15 @@ func main() {
 	verbose := flag.Bool("v", false, "verbose")
 	abstractHashes := flag.Bool("abstract-hashes", false, "never evaluate hashes natively")
 	maxUnwind := flag.Int("unwind", 100000, "per-frame block visit bound")
+	noInc := flag.Bool("no-inc", false, "do not use the incremental solver for feasibility queries")
+	incMs := flag.Int("inc-ms", 1500, "timeout of incremental feasibility queries")
 	flag.Parse()
 
 	e := exec.NewEngine(*repo)
 	e.Workers, e.MaxPaths, e.FeasMs, e.VerdictMs, e.SolverKind = *workers, *maxPaths, *feas, *verdict, *solver
 	e.DumpQueries, e.Verbose, e.AbstractHashes, e.MaxUnwind = *dump, *verbose, *abstractHashes, *maxUnwind
+
+	e.NoIncremental, e.IncMs = *noInc, *incMs
 
 	overlay := map[string]string{}
 	pkgs := map[string]bool{}
